@@ -1956,15 +1956,23 @@ func huntB2i(b bool) int {
 var huntProtos = []string{"bs", "bn", "c"}
 
 func genHuntC04(h *H) {
-	// dc5a411: types which contain themselves
+	// dc5a411: types which contain themselves. A type whose encoder or decoder cannot be built kills the
+	// worker in every case (seconds each): after the first death the other cases of that type are not run.
+	deadL, deadM := false, false
 	for _, p := range huntProtos {
 		for n := 1; n <= 5; n++ {
 			for _, t := range huntTrees(n) {
-				h.DoRisky("hunt.thrift", "selfrec", p, "list", t)
+				if !deadL {
+					i, _ := h.DoRisky("hunt.thrift", "selfrec", p, "list", t)
+					deadL = strings.HasPrefix(i, "fatal:")
+				}
 			}
 		}
 		for d := 0; d <= 5; d++ {
-			h.DoRisky("hunt.thrift", "selfrec", p, "map", strconv.Itoa(d))
+			if !deadM {
+				i, _ := h.DoRisky("hunt.thrift", "selfrec", p, "map", strconv.Itoa(d))
+				deadM = strings.HasPrefix(i, "fatal:")
+			}
 		}
 	}
 	// fb0bd25: union members holding their zero value; embedded pointer
@@ -2003,20 +2011,29 @@ func genHuntC08(h *H) {
 		}
 	}
 	// 9c8d6b4: nesting depth
+	dead := map[string]bool{} // shapes whose type cannot be built (the worker dies at depth 2): one report each
 	for _, p := range huntProtos {
 		for _, shape := range []string{"skiplist", "skipstruct", "skipmap", "recstruct", "reclist"} {
 			for _, L := range []int{2, 3, 9998, 9999, 10000, 10001, 10002, 10003, 30000} {
-				h.DoRisky("hunt.thrift", "tdeep", p, shape, strconv.Itoa(L))
+				if dead[shape] {
+					continue
+				}
+				if i, _ := h.DoRisky("hunt.thrift", "tdeep", p, shape, strconv.Itoa(L)); L == 2 && strings.HasPrefix(i, "fatal:") {
+					dead[shape] = true
+				}
 			}
 		}
 	}
 	for _, shape := range []string{"skiplist", "skipstruct", "skipmap", "recstruct", "reclist"} {
-		h.DoRisky("hunt.thrift", "tdeep", "bs", shape, "1500000")
-		h.DoRisky("hunt.thrift", "tdeep", "c", shape, "1500000")
+		if !dead[shape] {
+			h.DoRisky("hunt.thrift", "tdeep", "bs", shape, "1500000")
+			h.DoRisky("hunt.thrift", "tdeep", "c", shape, "1500000")
+		}
 	}
 	// cf738bd: the required field reported missing
 	for _, p := range huntProtos {
-		for ty, nf := range map[string]int{"1": 4, "2": 3, "3": 4, "4": 2} {
+		for k, nf := range []int{4, 3, 4, 2} { // fixed order: the case list does not depend on map iteration
+			ty := strconv.Itoa(k + 1)
 			for mask := 0; mask < 1<<uint(nf); mask++ {
 				h.Do("hunt.thrift", "missing", p, ty, strconv.Itoa(mask))
 			}
@@ -2026,7 +2043,8 @@ func genHuntC08(h *H) {
 	for _, p := range huntProtos {
 		for _, strict := range []string{"0", "1"} {
 			for _, t := range huntTTypes {
-				for what, own := range map[string]string{"field": "i32", "fieldL": "list", "fieldM": "map", "fieldT": "struct", "inner": "i32"} {
+				for _, wo := range [][2]string{{"field", "i32"}, {"fieldL", "list"}, {"fieldM", "map"}, {"fieldT", "struct"}, {"inner", "i32"}} {
+					what, own := wo[0], wo[1]
 					if t != own {
 						h.Do("hunt.thrift", "mismatch", p, strict, what, t, "1")
 					}
